@@ -30,6 +30,11 @@ def values_for(setting, rng):
         return [str(x) for x in rng.sample(range(1, 10), 3)]
     if setting in ("cors_allow_all", "cors_allow_credentials"):
         return ["false", "true", "false"] if rng.chance(1, 2) else ["true", "false", "true"]
+    if setting in LISTY and rng.chance(1, 3):
+        # one of the three sources supplies the EMPTY list (which must override a lower-precedence non-empty one)
+        v = ["https://e%d.example" % rng.below(100) if setting == "cors_allow_origins" else "x-%d" % rng.below(100) for _ in range(3)]
+        v[rng.choice([1, 2])] = ""
+        return v
     if setting == "cors_allow_origins":
         return ["https://e%d.example,https://f%d.example" % (i, i) for i in rng.sample(range(100), 3)]
     if setting == "cors_allow_methods":
@@ -73,7 +78,8 @@ def toml_file(assign, rng):
     out += top
     if cors:
         out += ["", rng.choice(["[cors]", "[cors] # table", "[ cors ]"])] + cors
-    return "\n".join(out) + "\n"
+    nl = rng.choice(["\n", "\n", "\r\n"])   # Windows line endings are white space too
+    return nl.join(out) + nl
 
 
 def cli_args(assign, rng, spelling=None):
@@ -320,6 +326,9 @@ def engine_b(c, rng):
                         bad = "buffer echo %s, expected %d" % (m.group(1) if m else None, want)
                 else:
                     origin = "https://probe.example" if s != "cors_allow_origins" else eff[s].split(",")[0]
+                    overridden = [x for x in (ev, fv, cv) if x and x != eff[s]]
+                    if s == "cors_allow_origins" and eff[s] == "" and overridden:
+                        origin = overridden[0].split(",")[0]   # an origin of a lower-precedence source that the empty list overrides
                     if s == "cors_allow_all":
                         origin = "https://foreign.example"
                     data, end = srv.request(("OPTIONS %s HTTP/1.1\r\nHost: x\r\nOrigin: %s\r\nAccess-Control-Request-Method: TRACE\r\nAccess-Control-Request-Headers: X-Zzz\r\n\r\n" % (f, origin)).encode())
@@ -329,6 +338,9 @@ def engine_b(c, rng):
                         echoed = g("access-control-allow-origin") == origin
                         if echoed != (eff[s] == "true"):
                             bad = "foreign origin echoed=%s with allow-all=%s" % (echoed, eff[s])
+                    elif s == "cors_allow_origins" and eff[s] == "":
+                        if g("access-control-allow-origin") is not None:
+                            bad = "zero origins are configured (the empty list has the highest precedence) but %r is granted" % origin
                     elif s == "cors_allow_origins":
                         if g("access-control-allow-origin") != origin:
                             bad = "configured origin %r not granted (%r)" % (origin, g("access-control-allow-origin"))
